@@ -297,6 +297,14 @@ def main():
                         oracle_sig='expression-trace-differs')
     # 4. built-in functions return their documented results
     check_builtins(chk, stats)
+    # two scripts at the same time (harness/concurrent.py): each must compute what it computes alone
+    import concurrent as _cc
+    _problems, _n = _cc.isolation_cases(chk.rng, 25 if chk.thorough else 3)
+    stats['concurrent_pairs'] = _n
+    chk.count(_n)
+    for _p in _problems:
+        if _p['kind'] in ('expr', 'fault'):
+            chk.violation('expression-value-differs:concurrent-scripts', _p['what'], _p['replay'])
     chk.coverage['distribution'] = stats
     chk.coverage['rule'] = (
         'random expression trees (depth 1-5) over literals, variables, a macro, registers, user '
